@@ -239,6 +239,17 @@ func genC16(r *Rng, e *Emitter, n int) {
 				if r.chance(1, 3) {
 					rows = append(rows, nil)
 				}
+				if r.chance(1, 40) {
+					// one polygon with a great many rings (all but the first few empty): a long row
+					j := r.Intn(len(rows))
+					if rows[j] != nil {
+						last := rows[j][len(rows[j])-1]
+						for want := []int{1023, 1024, 1025, 1201, 2049}[r.Intn(5)]; len(rows[j]) < want; {
+							rows[j] = append(rows[j], last)
+						}
+						e.tally("long-row-of-ring-ends")
+					}
+				}
 				for _, row := range rows {
 					if row == nil {
 						endss = append(endss, nil)
